@@ -8,8 +8,9 @@
     Hash of C05 apply to it - and this is lifted to all finite histories mixing constructors, copies, sign
     changes and arithmetic. *)
 From Dashu Require Import Base.Prelude Base.Words.
-From Dashu Require Import Int.RingOps Int.RingOpsProofs Int.RingOpsMulProofs Int.RingDispatchProofs Int.RingTop.
+From Dashu Require Import Int.RingAdd Int.RingMul Int.RingOps Int.RingOpsProofs Int.RingOpsMulProofs Int.RingDispatchProofs Int.RingTop.
 From Dashu Require Import Int.BitsKernels Int.BitsLogicProofs Int.BitsShiftProofs Int.BitsMiscProofs.
+From Dashu Require Import Int.ReprOrdNoNegZero.
 From Dashu Require Import Int.ReprOrdModel Int.ReprOrdProofs.
 Open Scope Z_scope.
 
@@ -164,6 +165,49 @@ Proof.
   rewrite V', E. exact V.
 Qed.
 
+(** ... and the sign stored is the sign the model returned: with_sign never has to correct a negative zero *)
+Lemma stored_sign c s t : twf w t -> (s = Negative -> RingOps.is_zero t = false) -> rsign (of_mag c s (of_t t)) = s.
+Proof.
+  intros T Z. destruct (twf_mag_ok t T) as [M E]. destruct (of_mag_ok c s (of_t t) M) as [C V].
+  pose proof (rvalue_sign w w_pos _ C) as S. rewrite V, E in S.
+  pose proof (twf_nonneg w w_ge t T) as N.
+  destruct s.
+  - destruct (rsign (of_mag c Positive (of_t t))); [reflexivity|]. unfold signed in S. cbn [sgnz] in S. lia.
+  - assert (repr_value w t <> 0) as NZ.
+    { specialize (Z eq_refl). destruct t as [d|ws]; cbn [repr_value].
+      - destruct d; cbn [RingOps.is_zero] in Z; [discriminate | lia | lia].
+      - pose proof (large_ge w w_ge ws T). pose proof (B_pos w w_pos). nia. }
+    destruct (rsign (of_mag c Negative (of_t t))); [|reflexivity]. unfold signed in S. cbn [sgnz] in S. lia.
+Qed.
+
+Theorem ibig_add_sign_exact o c a b s t : canonical w a -> canonical w b ->
+  ibig_add_asis w o (rsign a) (to_t a) (rsign b) (to_t b) = Ok (s, t) -> rsign (of_mag c s (of_t t)) = s.
+Proof.
+  intros Ca Cb E. destruct (to_t_ok a Ca) as [Ta _]. destruct (to_t_ok b Cb) as [Tb _].
+  destruct (ibig_add_exact w w_ge o (rsign a) (to_t a) (rsign b) (to_t b) Ta Tb) as (r & E' & _ & T).
+  rewrite E in E'. inversion E'. subst r. cbn [snd] in T. apply stored_sign; [exact T|].
+  exact (ibig_add_no_negative_zero w o _ _ _ _ _ E).
+Qed.
+
+Theorem ibig_sub_sign_exact o c a b s t : canonical w a -> canonical w b ->
+  ibig_sub_asis w o (rsign a) (to_t a) (rsign b) (to_t b) = Ok (s, t) -> rsign (of_mag c s (of_t t)) = s.
+Proof.
+  intros Ca Cb E. destruct (to_t_ok a Ca) as [Ta _]. destruct (to_t_ok b Cb) as [Tb _].
+  destruct (ibig_sub_exact w w_ge o (rsign a) (to_t a) (rsign b) (to_t b) Ta Tb) as (r & E' & _ & T).
+  rewrite E in E'. inversion E'. subst r. cbn [snd] in T. apply stored_sign; [exact T|].
+  exact (ibig_sub_no_negative_zero w o _ _ _ _ _ E).
+Qed.
+
+Theorem ibig_mul_sign_exact c a b s t : canonical w a -> canonical w b ->
+  ibig_mul_asis w src_T_simple src_T_kara src_CHUNK src_SQR (rsign a) (to_t a) (rsign b) (to_t b) = Ok (s, t) ->
+  rsign (of_mag c s (of_t t)) = s.
+Proof.
+  intros Ca Cb E. destruct (to_t_ok a Ca) as [Ta _]. destruct (to_t_ok b Cb) as [Tb _].
+  destruct (ibig_mul_exact w w_ge (rsign a) (to_t a) (rsign b) (to_t b) (twf_tok w _ Ta) (twf_tok w _ Tb)) as (r & E' & _ & T).
+  rewrite E in E'. inversion E'. subst r. cbn [snd] in T. apply stored_sign; [exact T|].
+  exact (ibig_mul_no_negative_zero w _ _ _ _ _ _ _ _ _ E).
+Qed.
+
 Theorem ibig_add_ok o c a b : canonical w a -> canonical w b ->
   exists r, ibig_add o c a b = Ok r /\ canonical w r /\ rvalue w r = rvalue w a + rvalue w b.
 Proof.
@@ -252,6 +296,25 @@ Proof.
   split; [exact C|]. rewrite V', E, V, Va. unfold signed. cbn [sgnz]. lia.
 Qed.
 
+(** any value computed at the level of integers (quotients and remainders, gcd, roots, powers, parsed digits: the models
+    of C02, C07, C12 work on Z) and then stored the way the library stores every result - a buffer of n words handed to
+    Repr::from_buffer, the sign applied with with_sign *)
+Definition store_value (c n v : Z) : repr :=
+  ReprOrdModel.with_sign (ReprOrdModel.from_buffer w (Z.max c n) (words_of w n (Z.abs v))) (sign_of v).
+
+Theorem store_value_ok c n v : 0 <= n -> Z.abs v < B ^ n ->
+  canonical w (store_value c n v) /\ rvalue w (store_value c n v) = v.
+Proof.
+  intros Hn Hv. unfold store_value, words_of.
+  pose proof (to_words_wf w w_pos (Z.to_nat n) (Z.abs v)) as W.
+  pose proof (to_words_length w (Z.to_nat n) (Z.abs v)) as L.
+  assert (len (to_words w (Z.to_nat n) (Z.abs v)) = n) as Ln by (unfold len; rewrite L; lia).
+  destruct (from_buffer_ok w w_pos (Z.max c n) _ W ltac:(lia)) as [C V].
+  rewrite (value_to_words w w_pos) in V by (rewrite Z2Nat.id by lia; lia).
+  destruct (with_sign_ok w w_pos _ (sign_of v) C) as [C' V']. split; [exact C'|]. rewrite V', V.
+  unfold signed, sign_of. destruct (Z.ltb_spec v 0); cbn [sgnz]; lia.
+Qed.
+
 (* ---------------------------------------------------------------- histories with arithmetic steps *)
 
 Inductive aop :=
@@ -263,12 +326,14 @@ Inductive aop :=
 | ACubic (c : Z) (i : nat)
 | AUSub (o : own) (c : Z) (i j : nat)      (* on the magnitudes; a panic leaves the pool unchanged *)
 | ABit (f : bitop) (c : Z) (i j : nat)
-| AShift (f : shiftop) (c : Z) (i : nat) (n : Z).
+| AShift (f : shiftop) (c : Z) (i : nat) (n : Z)
+| AValue (c n v : Z).                       (* a value computed on integers, stored through from_buffer / with_sign *)
 
 Definition aop_ok (o : aop) : Prop :=
   match o with
   | ABase h => hop_ok w h
   | AShift _ _ _ n => 0 <= n
+  | AValue _ n v => 0 <= n /\ Z.abs v < B ^ n
   | _ => True
   end.
 
@@ -290,6 +355,7 @@ Definition astep (p : list repr) (o : aop) : list repr :=
   | AUSub o c i j => push p (ubig_sub o c (mag (g i)) (mag (g j)))
   | ABit f c i j => p ++ [ubig_bit f c (g i) (g j)]
   | AShift f c i n => p ++ [ubig_shift f c (g i) n]
+  | AValue c n v => p ++ [store_value c n v]
   end.
 
 Definition arun (p : list repr) (os : list aop) : list repr := fold_left astep os p.
@@ -311,7 +377,7 @@ Lemma astep_canonical p o : Forall (canonical w) p -> aop_ok o -> Forall (canoni
 Proof.
   intros Hp Ho.
   assert (G : forall i, canonical w (pool_get p i)) by (intro i; apply (pool_get_canonical w w_pos); exact Hp).
-  destruct o as [h|o c i j|o c i j|c i j|c i|c i|o c i j|f c i j|f c i n]; cbn [astep aop_ok] in *.
+  destruct o as [h|o c i j|o c i j|c i j|c i|c i|o c i j|f c i j|f c i n|c n v]; cbn [astep aop_ok] in *.
   - apply (hstep_canonical w w_pos); assumption.
   - apply push_canonical; [exact Hp|]. intros r E.
     destruct (ibig_add_ok o c _ _ (G i) (G j)) as (r' & E' & C & _). rewrite E in E'. inversion E'. subst. exact C.
@@ -331,6 +397,7 @@ Proof.
     + destruct H as (r' & E' & C & _). rewrite E in E'. inversion E'. subst. exact C.
   - apply Forall_app. split; [exact Hp|]. constructor; [|constructor]. apply ubig_bit_ok; apply G.
   - apply Forall_app. split; [exact Hp|]. constructor; [|constructor]. apply ubig_shift_ok; [apply G | exact Ho].
+  - apply Forall_app. split; [exact Hp|]. constructor; [|constructor]. apply store_value_ok; tauto.
 Qed.
 
 (** whatever finite sequence of constructors, copies, sign changes, in-place updates and arithmetic produced the
